@@ -171,6 +171,14 @@ func run(c *Case) []snapx.Problem {
 		m2.SeedIDs(preIDs, touched)
 	}
 	c.View = m2.View()
+	if c.NR {
+		m2.NoRestoreGone = map[int]bool{}
+		for _, e := range c.View.Walk {
+			if e.L.R {
+				m2.NoRestoreGone[e.Name] = true
+			}
+		}
+	}
 	// clause: mounted again WITH THE LABELS IT WAS CREATED WITH: compare what the backend gets at restore with what
 	// the backend of the dead process saw when the snapshot was created (plus the remote mark the snapshotter adds),
 	// unless the labels were replaced by Update since. Labels passed with an EMPTY value are not persisted
@@ -429,6 +437,13 @@ func main() {
 			corpus = append(corpus, Case{Pre: rich, Crash: snapx.Op{Op: "prepare", Key: 4, Parent: 3, L: snapx.Labels{T: 5, E: 2}, MOK: true}, KSeed: 4 + k,
 				Allow: k == 1, Ops: []snapx.Op{cleanup, {Op: "mounts", Key: 4, Parent: -1, L: N}}})
 		}
+	}
+	// crash during Close with NoRestore, then (a) Update strips the remote mark of a snapshot whose directory Close
+	// removed, (b) Commit / Prepare need the directory of such a snapshot: all prescribed by NoRestore
+	for k := 0; k < 2; k++ {
+		corpus = append(corpus, Case{Pre: chain, Crash: snapx.Op{Op: "close", Parent: -1, L: N}, KSeed: 3 + 4*k, NR: true,
+			Ops: []snapx.Op{cleanup, {Op: "update", Name: 1, Parent: -1, L: snapx.Labels{T: -1, U: 2}},
+				{Op: "commit", Name: 6, Key: 2, Parent: -1, L: N}, {Op: "prepare", Key: 7, Parent: 2, L: N, MOK: true}, cleanup}})
 	}
 	// crash inside the very first createSnapshot: Cleanup must reclaim the temp / orphan directory (fixed finding F61)
 	for k := 0; k < 3; k++ {
